@@ -492,6 +492,46 @@ func x64Aspects(want, got dis, immRange bool) []string {
 	return out
 }
 
+// x64ZeroExtMov: "mov r64, imm" with 0 ≤ imm < 2^32 may legitimately be
+// encoded as "mov r32, imm32" (writing r32 zero-extends into r64; the Plan 9
+// assembler and GNU as -O do this).  Such a decoding is rewritten to the
+// expected spelling so that it compares equal.
+func x64ZeroExtMov(want, got dis) dis {
+	if !got.ok || want.op != "mov" || got.op != "mov" || len(want.args) != 2 || len(got.args) != 2 {
+		return got
+	}
+	wn, ww, wok := x64Family(want.args[0])
+	gn, gw, gok := x64Family(got.args[0])
+	if !wok || !gok || wn != gn || ww != 8 || gw != 4 || !strings.HasPrefix(want.args[1], "#") || !strings.HasPrefix(got.args[1], "#") {
+		return got
+	}
+	wv, _ := strconv.ParseInt(want.args[1][1:], 10, 64)
+	gv, _ := strconv.ParseInt(got.args[1][1:], 10, 64)
+	if wv >= 0 && wv < 1<<32 && uint32(gv) == uint32(wv) {
+		out := got
+		out.args = []string{want.args[0], want.args[1]}
+		return out
+	}
+	return got
+}
+
+// x64SameRefs: the two references decode the same instruction.  Immediates
+// are compared at every operand size: the references print an imm32 of a
+// 32-bit operation with different signs, and the expected operand size need
+// not be the size of what was actually encoded.
+func x64SameRefs(a, b dis) bool {
+	for _, size := range []int{0, 8, 4, 2, 1} {
+		x, y := a, b
+		if size != 0 {
+			x, y = x64Normalize(a, size), x64Normalize(b, size)
+		}
+		if x.equal(y) {
+			return true
+		}
+	}
+	return false
+}
+
 // x64WidenBase rewrites "[ecx-1]" to "[rcx-1]".
 func x64WidenBase(addr string) string {
 	inner := strings.Trim(addr, "[]")
@@ -564,7 +604,7 @@ func x64Check(k kase, mode llvmMode) (v verdict) {
 	want, opBytes, immRange, boundary := x64Expected(k)
 	v.want, v.boundary, v.shape, v.opBytes = want, boundary, "", opBytes
 
-	xa := x64Xarch(code, opBytes)
+	xa := x64ZeroExtMov(want, x64Xarch(code, opBytes))
 	aspXa := x64Aspects(want, xa, immRange)
 	if xa.ok && xa.n != len(code) && len(aspXa) == 0 {
 		aspXa = []string{"length"}
@@ -584,7 +624,7 @@ func x64Check(k kase, mode llvmMode) (v verdict) {
 			if lines, err := llvmX64.one(code); err != nil {
 				v.note("llvm_error")
 			} else {
-				ll, haveLL = x64LLVMn(lines, opBytes), true
+				ll, haveLL = x64ZeroExtMov(want, x64LLVMn(lines, opBytes)), true
 				v.usedLLVM = true
 			}
 		}
@@ -602,7 +642,7 @@ func x64Check(k kase, mode llvmMode) (v verdict) {
 		case !haveLL:
 			fail(aspXa)
 		case xa.ok && ll.ok:
-			if !xa.equal(ll) {
+			if !x64SameRefs(xa, ll) {
 				v.note("ref_conflict")
 			} else {
 				fail(aspXa)
